@@ -510,6 +510,13 @@ func execC03M(ops []Op) []string {
 		}
 		return out
 	}
+	if len(ops) > 0 && ops[0].Args[0] == "cc" {
+		var out []string
+		for _, op := range ops {
+			out = append(out, execCloseCC(op)...)
+		}
+		return out
+	}
 	if len(ops) > 0 && ops[0].Args[0] == "src" { // replay of a program case: the source travels in the first request
 		b, _ := hex.DecodeString(ops[0].Args[1])
 		sx, err := LuaToSexp(string(b))
@@ -745,6 +752,26 @@ end
 	return b.String(), strings.Join(keys, "+")
 }
 
+// corpus/C03M/*.cc: one `nparams program` per line (# comments)
+func loadCCCorpus() [][]string {
+	files, _ := filepath.Glob(filepath.Join(verifRoot(), "corpus", "C03M", "*.cc"))
+	sort.Strings(files)
+	var out [][]string
+	for _, f := range files {
+		b, err := os.ReadFile(f)
+		if err != nil {
+			continue
+		}
+		for _, line := range strings.Split(string(b), "\n") {
+			fs := strings.Fields(line)
+			if len(fs) == 2 && !strings.HasPrefix(fs[0], "#") {
+				out = append(out, []string{"cc", fs[0], fs[1]})
+			}
+		}
+	}
+	return out
+}
+
 func loadLuaCorpus(prop string) []string {
 	files, _ := filepath.Glob(filepath.Join(verifRoot(), "corpus", prop, "*.lua"))
 	sort.Strings(files)
@@ -756,17 +783,25 @@ func runC03M(run *Run) {
 	if run.Tier == "thorough" {
 		nCells, nRaw, nProg, maxOps = 60000, 40000, 6000, 90
 	}
-	run.Rule = "(1) operation sequences on the real open-upvalue list and opcode handlers via the hook VerifUpvalMachine: traces over the Spec/Cells alphabet (declare/write/read/capture/close>=k/uvread/uvwrite, ~96% disciplined steps, boundary-heavy close levels) replayed on the Lean Model (exact, incl. the chain after every step) and on the cell semantics while disciplined; raw find/close/Value/SetValue/OP_CLOSURE capture lists/OP_GETUPVAL/OP_SETUPVAL/OP_CLOSE/OP_GETGLOBAL/OP_SETGLOBAL/setfenv sequences incl. out-of-range indices (Model only). (2) monitor: corpus/C03M/*.lua + generated capture x exit x reuse programs; every probe() snapshot judged by the Lean image of the invariant, outcome judged by Spec/Sem. distinct = distinct op-kind skeletons (sequences) / distinct shape keys (programs)"
+	run.Rule = "(1) operation sequences on the real open-upvalue list and opcode handlers via the hook VerifUpvalMachine: traces over the Spec/Cells alphabet (declare/write/read/capture/close>=k/uvread/uvwrite, ~96% disciplined steps, boundary-heavy close levels) replayed on the Lean Model (exact, incl. the chain after every step) and on the cell semantics while disciplined; raw find/close/Value/SetValue/OP_CLOSURE capture lists/OP_GETUPVAL/OP_SETUPVAL/OP_CLOSE/OP_GETGLOBAL/OP_SETGLOBAL/setfenv sequences incl. out-of-range indices (Model only). (2) monitor: corpus/C03M/*.lua + generated capture x exit x reuse programs; every probe() snapshot judged by the Lean image of the invariant, outcome judged by Spec/Sem. (3) compile side (request cc): generated programs of the abstract scoping language of Model/CloseCompile.lean (blocks, locals, closures capturing chosen visible locals, while/repeat with capturing until/numeric for/generic for, break, labels and gotos: continue-style, behind compound statements, backward, junk targets; return) rendered to Lua, compiled by the real parse.Parse+lua.Compile and reduced to the skeleton CLOSE a / JMP target / FORPREP / FORLOOP / TFORLOOP / RETURN / CLOSURE capture list / NOP; compared token by token with the Lean compile model (compileFunction, finalize, assemble), whose output is also decided by the proved-sound certificate checker closeDiscipline (a TEST for programs with labels/gotos; goto-free programs are covered by theorem compile_establishes_discipline_partial). distinct = distinct op-kind skeletons (sequences) / distinct shape keys (programs) / distinct statement-kind skeletons (cc)"
 	run.Assume = []string{
 		"the `next` chain of the open list is modelled as a Lean list of handles (acyclic by construction; the hook walks the real chain on every step)",
 		"Go nil above registry top and LNil are one value in the model; the sequences initialise every register they use",
 		"registry growth is outside this model (Model/Registry); sequences stay inside the allocated array",
 		"OP_RETURN / OP_TAILCALL / PCall recovery / threadRun closing are tied through monitored program runs, not single-stepped",
 		"S-expressions of monitored programs come from gopher-lua's own parser (the property is not about parsing)",
+		"compile side: one activation with LocalBase 0; expressions are opaque; variables are identified with their registers (the renderer gives every declaration a unique name); the ghost certificate (label types, goto states) is produced by the model, checked by closeDiscipline, never compared with the implementation",
 	}
 	root := NewRng(uint64(run.Seed))
 	var cases []Case
+	onlyCC := os.Getenv("C03M_ONLY") == "cc" // developer switch: only the compile-side part (3)
+	if onlyCC {
+		nCells, nRaw, nProg = 0, 0, 0
+	}
 	for i, c := range loadCorpus("C03M") {
+		if onlyCC {
+			break
+		}
 		cases = append(cases, Case{Idx: -1 - i, Ops: c, Note: "corpus"})
 	}
 	for i := 0; i < nCells; i++ {
@@ -781,6 +816,9 @@ func runC03M(run *Run) {
 	cases = nil
 	shapes := map[string]bool{}
 	for i, f := range loadLuaCorpus("C03M") {
+		if onlyCC {
+			break
+		}
 		b, err := os.ReadFile(f)
 		if err != nil {
 			continue
@@ -812,7 +850,35 @@ func runC03M(run *Run) {
 	for k := range shapes {
 		run.Distinct["prog:"+k] = true
 	}
-	run.Extra["programs_monitored"] = len(cases)
+	nmon := len(cases)
+
+	// (3) compile side: abstract scoping programs, real compiler vs compile model (c03_close.go)
+	nCC := 2500
+	if run.Tier == "thorough" {
+		nCC = 40000
+	}
+	cases = nil
+	ccShapes := map[string]bool{}
+	for i, f := range loadCCCorpus() {
+		cases = append(cases, Case{Idx: 5000000 + i, Ops: []Op{{Args: f}}, Note: "corpus"})
+	}
+	for i := 0; i < nCC; i++ {
+		np, ss := genCloseProgram(root.Fork(uint64(6000000 + i)))
+		prog := clcEncode(ss)
+		if prog == "" {
+			prog = "-"
+		}
+		ccShapes[clcKey(ss)] = true
+		cases = append(cases, Case{Idx: 6000000 + i, Ops: []Op{{Args: []string{"cc", strconv.Itoa(np), prog}}}})
+	}
+	beforeCC := run.Evals
+	runCases(run, cases, execC03M, classifyNone)
+	for k := range ccShapes {
+		run.Distinct["cc:"+k] = true
+	}
+	run.Extra["close_compile_programs"] = run.Evals - beforeCC
+	run.Extra["close_compile_shapes"] = len(ccShapes)
+	run.Extra["programs_monitored"] = nmon
 	run.Extra["program_requests(snapshots+outcomes)"] = run.Evals - before
 	run.Extra["program_shapes"] = len(shapes)
 }
